@@ -69,3 +69,38 @@ package appctx
 //@   ensures [first-wins] old(has(ctxOf(appCtx).m, AppCtxFirstFatalErrorKey)) ==> ctxOf(appCtx).m[AppCtxFirstFatalErrorKey] == old(ctxOf(appCtx).m[AppCtxFirstFatalErrorKey])
 //@   ensures [present-after] has(ctxOf(appCtx).m, AppCtxFirstFatalErrorKey)
 //@   ensures [others-unchanged] othersUnchanged(ctxOf(appCtx), AppCtxFirstFatalErrorKey)
+
+// ---------------------------------------------------------------------------------------------
+// C20: the runtime identity string never grows beyond 128 bytes through features. totallen(s) is the sum of the
+// lengths of the elements of a []string (additive over append; strings.Join's assumed contract is stated with it).
+// ---------------------------------------------------------------------------------------------
+//@ const MaxRuntimeReleaseLength == 128
+//@ func CreateRuntimeReleaseFromRequest
+//@   requires request != nil && len(runtimeRelease) <= 281474976710656
+//@   modifies nothing
+//@   ensures [grows-only-within-the-limit] r0 == runtimeRelease || len(r0) <= 128
+//@   ensures [never-shrinks] len(r0) >= len(runtimeRelease)
+//@   ensures [appended-form-ends-with-a-bracket] r0 != runtimeRelease ==> hassuffix(r0, ")")
+//@   loop range strings.Fields(lambdaRuntimeFeaturesHeader): invariant numberOfAppendedFeatures == len(lambdaRuntimeFeatures) && 0 <= numberOfAppendedFeatures && availableLength == 128 - runtimeReleaseLength - 3 - totallen(lambdaRuntimeFeatures) && (numberOfAppendedFeatures >= 1 ==> totallen(lambdaRuntimeFeatures) + numberOfAppendedFeatures - 1 <= 128 - runtimeReleaseLength - 3) && runtimeReleaseLength == ite(len(runtimeRelease) == 0, 7, len(runtimeRelease))
+
+// the stored identity: absent counts as empty; whatever is stored under the key is a string (only these functions store there)
+//@ spec releaseStored(c ApplicationContext) bool = has(ctxOf(c).m, AppCtxRuntimeReleaseKey)
+//@ spec storedRelease(c ApplicationContext) string = ctxOf(c).m[AppCtxRuntimeReleaseKey].(string)
+//@ spec releaseWellTyped(c ApplicationContext) bool = typeis(c, *applicationContext) && ctxOf(c) != nil && (releaseStored(c) ==> typeis(ctxOf(c).m[AppCtxRuntimeReleaseKey], string))
+//@ func GetRuntimeRelease
+//@   requires releaseWellTyped(appCtx)
+//@   modifies nothing
+//@   ensures [stored-or-empty] r0 == ite(releaseStored(appCtx), storedRelease(appCtx), "")
+//@ func GetUserAgentFromRequest
+//@   requires request != nil
+//@   modifies nothing
+//@   ensures [a-token-of-the-header] len(r0) <= 281474976710656
+//@ func UpdateAppCtxWithRuntimeRelease
+//@   requires request != nil && releaseWellTyped(appCtx) && (releaseStored(appCtx) ==> len(storedRelease(appCtx)) <= 281474976710656)
+//@   modifies mapof(ctxOf(appCtx).m)
+//@   ensures [fixed-once-features-were-appended] old(releaseStored(appCtx)) && hassuffix(old(storedRelease(appCtx)), ")") ==> !r0
+//@   ensures [fixed-once-features-were-appended-2] old(releaseStored(appCtx)) && hassuffix(old(storedRelease(appCtx)), ")") ==> releaseStored(appCtx) && storedRelease(appCtx) == old(storedRelease(appCtx))
+//@   ensures [never-beyond-the-limit-through-features] old(releaseStored(appCtx)) && old(storedRelease(appCtx)) != "" && r0 ==> releaseStored(appCtx) && len(storedRelease(appCtx)) <= 128 && len(storedRelease(appCtx)) > len(old(storedRelease(appCtx)))
+//@   ensures [unchanged-when-refused] !r0 ==> releaseStored(appCtx) == old(releaseStored(appCtx)) && (releaseStored(appCtx) ==> storedRelease(appCtx) == old(storedRelease(appCtx)))
+//@   ensures [stays-a-string] releaseWellTyped(appCtx)
+//@   ensures [other-keys-untouched] othersUnchanged(ctxOf(appCtx), AppCtxRuntimeReleaseKey)
